@@ -525,6 +525,8 @@ func (e *Engine) VerifyFunc(key string) {
 		return
 	}
 	e.funcsUnderContract[shortKey(key)] = true
+	activateOpaque(con.Notes)
+	defer activateOpaque(nil)
 	pos := e.fset.Position(fn.Pos())
 	src := e.source(pos.Filename)
 	fc := &funcCtx{e: e, fn: fn, key: key, con: con, loops: map[*ssa.BasicBlock]*Loop{}, src: src, maxPath: 3000, siteOrd: map[string][]token.Pos{}, covered: map[*ssa.BasicBlock]bool{}}
